@@ -723,3 +723,32 @@ M('c19_stale_choice_buf', ['C19'], ['C19-R1'], 'broadcast() drains whatever was 
             |member| self.broadcast_handler.should_add_broadcast_data(member),
         );
 ''', ''))
+
+# ---------------------------------------------------------------- C20
+POSTCARD = 'src/codec/postcard_impl.rs'
+BINCODE = 'src/codec/bincode_impl.rs'
+M('c20_try_push_unbounded', ['C20', 'C06'], ['C20-R1', 'C06-R2'], 'postcard flavor pushes single bytes without checking the space left',
+  (POSTCARD, '        if self.0.has_remaining_mut() {\n            self.0.put_u8(data);\n            Ok(())\n        } else {\n            Err(postcard::Error::SerializeBufferFull)\n        }',
+   '        self.0.put_u8(data);\n        Ok(())'))
+M('c20_member_cursor_not_advanced', ['C20'], ['C20-R2', 'C20-R3'], 'decode_member leaves the cursor where it was (next member decodes the same bytes)',
+  (POSTCARD, '        let after = rest.remaining();\n        buf.advance(remaining - after);\n        Ok(member)', '        let _after = rest.remaining();\n        Ok(member)'))
+M('c20_header_advances_everything', ['C20'], ['C20-R2'], 'decode_header consumes the whole datagram',
+  (POSTCARD, '        let after = rest.len();\n        buf.advance(remaining - after);\n        Ok(payload)', '        let _after = rest.len();\n        buf.advance(remaining);\n        Ok(payload)'))
+M('c20_bincode_member_other_config', ['C20'], ['C20-R3'], 'bincode members are decoded with a different configuration than they were encoded with',
+  (BINCODE, '''    fn decode_member(&mut self, buf: impl bytes::Buf) -> Result<Member<T>, Self::Error> {
+        let mut reader = buf.reader();
+        bincode::serde::decode_from_std_read(&mut reader, self.0).map_err(Error::Decode)''', '''    fn decode_member(&mut self, buf: impl bytes::Buf) -> Result<Member<T>, Self::Error> {
+        let mut reader = buf.reader();
+        bincode::serde::decode_from_std_read(&mut reader, bincode::config::legacy()).map_err(Error::Decode)'''))
+M('c20_advance_on_error', ['C20'], ['C20-R2'], 'a failed postcard decode still moves the cursor',
+  (POSTCARD, '''    fn decode_member(&mut self, mut buf: impl Buf) -> Result<Member<T>, Self::Error> {
+        let remaining = buf.remaining();
+        debug_assert_eq!(remaining, buf.chunk().len());
+        let (member, rest) = postcard::take_from_bytes(buf.chunk())?;''', '''    fn decode_member(&mut self, mut buf: impl Buf) -> Result<Member<T>, Self::Error> {
+        let remaining = buf.remaining();
+        debug_assert_eq!(remaining, buf.chunk().len());
+        let res = postcard::take_from_bytes(buf.chunk());
+        if res.is_err() && remaining > 0 {
+            buf.advance(1);
+        }
+        let (member, rest) = res?;'''))
